@@ -132,25 +132,43 @@ RECURSIVE RedoAcc(_, _, _)
 RedoAcc(r, logs, z) == IF logs = <<>> THEN r ELSE RedoAcc(Effect(r, Head(logs).k, Head(logs).new, z), Tail(logs), z)
 Redone(b, j, z, Dv) == [a \in DOMAIN b |-> RedoAcc(b[a], Published(j, a, z, Dv), z)]
 
-\* ---------------------------------------------------------------- finishing the block: roots, published root logs
-\* (Manager.Finalise / Account.updateTrie / StorageCache.Update, Manager.Save)
+\* ---------------------------------------------------------------- finishing the block: roots, root logs, Save
+\* (Manager.Finalise / Account.updateTrie / StorageCache.Update, Manager.Save / Account.Save)
 \* The four roots commit to the contents of the four per-account tries; Finalise recomputes them for every account
-\* that keeps at least one published log and publishes a root log for every root that changed.
-\*   Dev_RevertedCreationLeavesEmptyRoot   undoStorage / undoAssetId / undoEquity write the EMPTY value back for an entry
-\*                            that did not exist at the snapshot; the entry stays in the trie cache's dirty set, so
-\*                            Finalise of an account whose trie had the zero root opens an empty trie, deletes the key and
-\*                            stores the hash of the empty trie ("E") instead of keeping the zero root - and publishes a
-\*                            root log for it.  A run that never executed the reverted write keeps the zero root.
+\* that keeps at least one published log and publishes a root log for every root that changed; Save writes those
+\* accounts, their tries and their code.
+\*   Dev_EmptyWriteLeavesEmptyRoot   writing the EMPTY value to an entry leaves the key in the trie cache's dirty set -
+\*                            undoStorage / undoAssetId / undoEquity do that for an entry that did not exist at the
+\*                            snapshot.  Finalise of an account whose trie has the zero root then opens an empty trie,
+\*                            deletes the key and stores the hash of the empty trie ("E") instead of keeping the zero
+\*                            root, and publishes a root log for it.  A run that never executed the reverted write
+\*                            (and the replay of the published logs) keeps the zero root.
+\*   Dev_SaveFailsOnDirtyEmptyCode   SetCode marks the code dirty for good; when the account's code is empty at the end
+\*                            of the block (undoCode of a first deployment, or a self-destruct after a deployment)
+\*                            Account.Save passes the empty code to the store, which refuses it: Manager.Save fails.
+\*   Dev_UndoAssetProfileKeyLeavesEmptyEntry   an asset profile key holding "" is a real map entry of the encoded asset
+\*                            (the getters cannot tell it from an absent key, the asset-code root can);
+\*                            undoAssetCodeState writes "" back for a key that did not exist at the snapshot, so the
+\*                            asset-code root (and the published AssetCodeRootLog) differ from those of a run that never
+\*                            executed the reverted write; a log writing "" over an absent key is not published, so the
+\*                            replay differs likewise.
 Roots == {"rs", "rac", "rai", "req"}
 \* the trie a setter kind writes to ("" none) ...
 TrieOf(k) == CASE k \in {"s1", "s2"} -> "rs" [] k \in {"ax", "asup", "afr"} -> "rac" [] k = "aid" -> "rai" [] k = "eq" -> "req" [] OTHER -> ""
-\* ... and whether a journalled old value says "there was no such entry" for the kinds whose undo writes the empty value
-\* back (asset codes are removed from the cache by undoAssetCode, so "ax" is not among them)
-AbsentOld(k, old) == CASE k \in {"s1", "s2", "eq"} -> old = 0 [] k = "aid" -> old = "" [] OTHER -> FALSE
-\* the (account, root) pairs for which undoing the journal j down to idx leaves such an empty dirty entry behind
-GhostsOf(j, idx) == {<<j[p].a, TrieOf(j[p].k)>> : p \in {q \in (idx + 1)..Len(j) : AbsentOld(j[q].k, j[q].old)}}
-\* SetSuicide(true) resets the storage, asset-code and asset-id caches of the account
-GhostsAfterSet(g, a, k) == IF k = "sui" THEN g \ {<<a, "rs">>, <<a, "rac">>, <<a, "rai">>} ELSE g
+\* ... and whether a value is "no such entry" for the kinds whose empty value is written into the cache (asset codes
+\* are removed from the cache by undoAssetCode, so "ax" is not among them)
+EmptyVal(k, v) == CASE k \in {"s1", "s2", "eq"} -> v = 0 [] k = "aid" -> v = "" [] OTHER -> FALSE
+\* ghost pairs <<account, root>>: the trie cache got an empty dirty entry; <<account, "code">>: the code got dirty;
+\* <<account, "afrkey">>: "" was written to the asset's profile key.
+\* Undoing the journal j down to idx writes the old values back:
+GhostsOf(j, idx) == {<<j[p].a, TrieOf(j[p].k)>> : p \in {q \in (idx + 1)..Len(j) : EmptyVal(j[q].k, j[q].old)}}
+                    \cup {<<j[p].a, "afrkey">> : p \in {q \in (idx + 1)..Len(j) : j[q].k = "afr" /\ j[q].old = ""}}
+\* a setter; SetSuicide(true) resets the storage, asset-code and asset-id caches of the account
+GhostsAfterSet(g, a, k, v) == IF k = "sui" THEN g \ {<<a, "rs">>, <<a, "rac">>, <<a, "rai">>, <<a, "afrkey">>}
+                              ELSE IF k = "code" THEN g \cup {<<a, "code">>}
+                              ELSE IF k = "afr" /\ v = "" THEN g \cup {<<a, "afrkey">>}
+                              ELSE IF EmptyVal(k, v) THEN g \cup {<<a, TrieOf(k)>>}
+                              ELSE g
 Content(r, f) == CASE f = "rs"  -> <<Get(r, "s1", 0), Get(r, "s2", 0)>>
                    [] f = "rac" -> <<Get(r, "ax", FALSE), Get(r, "asup", 0), Get(r, "afr", "")>>
                    [] f = "rai" -> <<Get(r, "aid", "")>>
@@ -162,8 +180,10 @@ WithRoots(r, z) == [f \in DOMAIN r |-> IF f \in Roots THEN RootOf(r, f, z) ELSE 
 \* Finalise of one account; g = the ghost pairs of the manager that executed the block
 FinAcc(r, a, z, g, Dv) ==
   [f \in DOMAIN r |-> IF f \notin Roots THEN r[f]
-                      ELSE IF /\ "Dev_RevertedCreationLeavesEmptyRoot" \in Dv /\ <<a, f>> \in g
+                      ELSE IF /\ "Dev_EmptyWriteLeavesEmptyRoot" \in Dv /\ <<a, f>> \in g
                               /\ r[f] = z /\ Content(r, f) = NoContent(f) THEN "E"
+                      ELSE IF /\ "Dev_UndoAssetProfileKeyLeavesEmptyEntry" \in Dv /\ f = "rac" /\ <<a, "afrkey">> \in g
+                              /\ Get(r, "ax", FALSE) /\ Get(r, "afr", "") = "" THEN ToString(<<Content(r, f), "">>)
                       ELSE RootOf(r, f, z)]
 Finalised(s, j, z, g, Dv) == [a \in DOMAIN s |-> IF Published(j, a, z, Dv) # <<>> THEN FinAcc(s[a], a, z, g, Dv) ELSE s[a]]
 \* what the block publishes for account a: the kinds of its merged, valuable logs in order and the roots that changed
@@ -172,6 +192,9 @@ PubOf(fin, b, j, a, z, Dv) == [kinds |-> [i \in 1..Len(Published(j, a, z, Dv)) |
 \* the state obtained by executing ONLY the surviving journal entries on the parent state (no snapshot, no revert)
 Executed(b, j, z) == LET mine(a) == LET m(e) == e.a = a IN SelectSeq(j, m)
                      IN [a \in DOMAIN b |-> RedoAcc(b[a], mine(a), z)]
+\* Manager.Save of the finalised state s fails
+SaveFails(s, j, z, g, Dv) == /\ "Dev_SaveFailsOnDirtyEmptyCode" \in Dv
+                             /\ \E a \in DOMAIN s : <<a, "code">> \in g /\ Published(j, a, z, Dv) # <<>> /\ Get(s[a], "code", "") = ""
 \* what a node that loads the saved block sees: events and the self-destruct flag are not persisted
 Volatile == {"ev", "sui"}
 Persisted(s) == [a \in DOMAIN s |-> [f \in DOMAIN s[a] |-> IF f = "ev" THEN 0 ELSE IF f = "sui" THEN FALSE ELSE s[a][f]]]
